@@ -100,6 +100,8 @@ class Fn:
         self.ntmp = 0
         self.uses_cx = False
         self.uses_pow = False
+        self.used_reads = {}
+        self.ret_types = []
         self.ret = None
         # `let mut` only for variables that are really re-assigned: found by a first pass (see translate())
         self.mut = None
@@ -150,6 +152,12 @@ class Fn:
 
     def expr(self, n, env, ind):
         """returns (lean term, type); emits `let t ← …` lines for the raising sub-operations, in evaluation order"""
+        if self.unit.reads and isinstance(n, (ast.Attribute, ast.Subscript, ast.Call)):
+            key = ast.unparse(n)
+            if key in self.unit.reads:      # an input of the function, named by its exact source text (see Unit.reads)
+                name, ty = self.unit.reads[key]
+                self.used_reads[name] = ty
+                return name, ty
         if isinstance(n, ast.Constant):
             if type(n.value) is bool:
                 return ("true" if n.value else "false"), "bool"
@@ -226,7 +234,12 @@ class Fn:
             lb = self.lines[mark:]; del self.lines[mark:]
             if ta == "prop": a, ta = self.as_bool(a, ta, n), "bool"
             if tb == "prop": b, tb = self.as_bool(b, tb, n), "bool"
-            if {ta, tb} == {"dec", "xdec"}:
+            if isinstance(ta, str) and isinstance(tb, str) and ta != tb and {ta, tb} <= {"int", "dec", "dec0"}:
+                # an int on one path, a Decimal on the other: a 'num' (type dec0) — the value, usable only where an int
+                # and a Decimal of that value behave alike (arithmetic with a Decimal partner, comparisons, Decimal())
+                a, b = self.as_dec(a, ta, n) if ta == "int" else a, self.as_dec(b, tb, n) if tb == "int" else b
+                ta = tb = "dec0"
+            if isinstance(ta, str) and isinstance(tb, str) and {ta, tb} == {"dec", "xdec"}:
                 if ta == "dec": a, ta = f"(Py.XDec.fin {a})", "xdec"
                 if tb == "dec": b, tb = f"(Py.XDec.fin {b})", "xdec"
             if ta != tb:
@@ -412,6 +425,8 @@ class Fn:
         sig = self.unit.sigs[fname]
         if sig.ret is None:
             fail(n, f"call of '{fname}', whose translation failed")
+        if getattr(sig, "reads", None):
+            fail(n, f"call of '{fname}', which takes attribute reads as inputs")
         if len(n.args) != len(sig.params):
             fail(n, f"call of {fname} with {len(n.args)} arguments (expects {len(sig.params)})")
         terms = []
@@ -503,6 +518,7 @@ class Fn:
                     fail(s, "bare return (None)")
                 a, ta = self.expr(s.value, env, ind)
                 if ta == "prop": a, ta = self.as_bool(a, ta, s), "bool"
+                a, ta = self.coerce_ret(a, ta, s)
                 self.set_ret(ta, s)
                 self.emit(ind, f"return {a}")
                 if i + 1 < len(stmts):
@@ -558,7 +574,9 @@ class Fn:
                     if dead:
                         continue
                     for k in env:
-                        if live_env[k] != env[k]:
+                        if isinstance(live_env[k], str) and isinstance(env[k], str) and {live_env[k], env[k]} == {"dec", "dec0"}:
+                            env[k] = "dec0"
+                        elif live_env[k] != env[k]:
                             fail(s, f"variable '{k}' changes type inside a branch")
                 if term_a and term_b:
                     if i + 1 < len(stmts):
@@ -601,6 +619,8 @@ class Fn:
             return False
         if ta == "prop": a, ta = self.as_bool(a, ta, s), "bool"
         want = env[names[0].id] if not isinstance(tg, ast.Tuple) else ("tuple", [env[e.id] for e in names])
+        if isinstance(ta, str) and isinstance(want, str) and {ta, want} == {"dec", "dec0"}:
+            env[names[0].id] = want = ta = "dec0"      # Decimal on one path, int-or-Decimal on the other
         if ta != want:
             fail(s, f"conditional assignment changes the type of {[e.id for e in names]}")
         for e in names:
@@ -613,12 +633,22 @@ class Fn:
         return True
 
     def set_ret(self, ty, node):
-        if ty == "dec0":
-            fail(node, "returning the result of sum() directly (int 0 when empty, Decimal otherwise)")
+        self.ret_types.append(ty)
         if self.ret is None:
             self.ret = ty
         elif self.ret != ty:
             fail(node, f"return statements of different types ({self.ret}, {ty})")
+
+    def coerce_ret(self, a, ta, node):
+        """pass 2: the unified return type is known (self.want_ret)"""
+        w = getattr(self, "want_ret", None)
+        if w is None or w == ta:
+            return a, ta
+        if w == "dec0" and ta in ("int", "dec"):
+            return (self.as_dec(a, ta, node) if ta == "int" else a), "dec0"
+        if w == "xdec" and ta == "dec":
+            return f"(Py.XDec.fin {a})", "xdec"
+        fail(node, f"return statements of different types ({w}, {ta})")
 
     def check_ann(self, ann, ty, node):
         if ann is None:
@@ -669,6 +699,8 @@ class Fn:
             direct = self.lines.pop().strip()[len(f"let {a} ← "):]
             self.ntmp -= 1
         if name in env:
+            if isinstance(ta, str) and isinstance(env[name], str) and {env[name], ta} == {"dec", "dec0"}:
+                env[name] = ta = "dec0"
             if env[name] != ta:
                 fail(s, f"variable '{name}' changes type ({env[name]} → {ta})")
             self.reassigned.add(name)
@@ -684,8 +716,16 @@ class Fn:
             # pass 1: everything mutable, record which names are re-assigned; pass 2: only those
             probe = Fn(self.unit, self.fdef, self.params, self.consts)
             probe.mut = {n.id for n in ast.walk(self.fdef) if isinstance(n, ast.Name)} | {p for p, _ in self.params}
+            probe.set_ret = lambda ty, node: probe.ret_types.append(ty)      # pass 1 only collects the return types
             probe.translate()
             self.mut = probe.reassigned
+            rts = set(map(repr, probe.ret_types))
+            if len(rts) > 1:
+                kinds = set(probe.ret_types) if all(isinstance(t, str) for t in probe.ret_types) else None
+                if kinds and kinds <= {"int", "dec", "dec0"}:
+                    self.want_ret = "dec0"     # int on one path, Decimal on another: the number (see README: type `num`)
+                elif kinds and kinds <= {"dec", "xdec"}:
+                    self.want_ret = "xdec"
         env = {}
         for p, t in self.params:
             env[p] = t
@@ -703,8 +743,12 @@ ANN = {"int": "int", "Decimal": "dec", "bool": "bool", "str": "str"}
 class Unit:
     """one Python source file (optionally one class of static methods) → one generated Lean file"""
 
-    def __init__(self, module, src, funcs, cls=None, consts=(), prefix=""):
+    def __init__(self, module, src, funcs, cls=None, consts=(), prefix="", reads=None):
         self.module, self.src, self.funcs, self.cls, self.const_names, self.prefix = module, src, funcs, cls, consts, prefix
+        # reads: {exact source text of an expression: (parameter name, type)} — attribute / data-row reads of a method
+        # that become extra leading parameters of the generated definition (pure inputs; if the text changes in the
+        # source the expression is no longer recognised and the translation fails loudly)
+        self.reads = reads or {}
         self.sigs = {}
         self.const_values = {}
 
@@ -761,11 +805,14 @@ class Unit:
                 a = fdef.args
                 if a.vararg or a.kwarg or a.kwonlyargs or a.defaults or a.posonlyargs:
                     fail(fdef, "defaults / *args / **kwargs in the signature")
-                if [x.arg for x in a.args] != list(ptypes):
+                argnames = [x.arg for x in a.args]
+                if argnames and argnames[0] == "self" and self.cls:
+                    argnames = argnames[1:]          # a method: `self` is reachable only through Unit.reads
+                if argnames != list(ptypes):
                     fail(fdef, f"parameters {[x.arg for x in a.args]} differ from the translator's signature table {list(ptypes)}")
                 for x in a.args:
                     an = getattr(x.annotation, "id", None)
-                    if an in ANN and ANN[an] != ptypes[x.arg]:
+                    if x.arg in ptypes and an in ANN and ANN[an] != ptypes[x.arg]:
                         fail(fdef, f"parameter {x.arg} is annotated {an}, the signature table says {ptypes[x.arg]}")
                 for d in fdef.decorator_list:
                     if getattr(d, "id", None) != "staticmethod":
@@ -773,7 +820,9 @@ class Unit:
                 fn = Fn(self, fdef, sig.params, consts or dict(EXTERNAL_CONSTS))
                 lines, ret, uses_cx, uses_pow = fn.translate()
                 sig.ret, sig.uses_cx, sig.uses_pow = ret, uses_cx, uses_pow
-                binders = ("(cx : NumCtx) " if uses_cx else "") + ("(dpow : Rat → Nat → Rat) " if uses_pow else "") + " ".join(f"({p} : {lean_ty(t)})" for p, t in sig.params)
+                sig.reads = [(nm, ty) for nm, ty in self.reads.values() if nm in fn.used_reads]
+                binders = ("(cx : NumCtx) " if uses_cx else "") + ("(dpow : Rat → Nat → Rat) " if uses_pow else "") \
+                    + "".join(f"({nm} : {lean_ty(ty)}) " for nm, ty in sig.reads) + " ".join(f"({p} : {lean_ty(t)})" for p, t in sig.params)
                 head = f"/-- `{self.src}` line {fdef.lineno}: `{name}` -/\ndef {sig.lean_name} {binders} : M ({lean_ty(ret)}) := do"
                 defs.append(head + "\n" + "\n".join(lines))
             except ShapeError as e:
@@ -824,6 +873,17 @@ UNITS.append(Unit("AaveCore", "demeter/aave/core.py", [
     ("get_min_withdraw_kept_amount", {"token": T, "collaterals": DD, "borrows": DD, "risk_parameters": F, "price": D}),
 ], cls="AaveV3CoreLib", consts=("SECONDS_IN_A_YEAR", "HEALTH_FACTOR_LIQUIDATION_THRESHOLD", "DEFAULT_LIQUIDATION_CLOSE_FACTOR",
                                  "MAX_LIQUIDATION_CLOSE_FACTOR", "CLOSE_FACTOR_HF_THRESHOLD"), prefix="aave_"))
+
+
+UNITS.append(Unit("GmxMarket", "demeter/gmx/market.py", [
+    ("get_fee_basis_points", {"token": T, "usdg_amount": D, "increase": B}),
+    ("_collect_swap_fee", {"token": T, "token_amount": D, "fee_point": D}),
+], cls="GmxMarket", prefix="gmx_", reads={
+    "self.market_status.data[f'{token.name.lower()}_usdg']": ("usdg_of_token", D),     # text as printed by ast.unparse
+    "self.get_target_amount(token)": ("target_amount_of_token", D),
+    "self.mint_burn_fee_basis_points": ("mint_burn_fee_basis_points", I),
+    "self.tax_basis_points": ("tax_basis_points", I),
+}))
 
 
 def run(write=True, only=None):
